@@ -35,9 +35,18 @@ SubEv(v) ==
             <<StepD("in1", <<"k2">>, 1, << >>, <<Simple("ALLOW", <<"*">>)>>)>>, << >>)),
     Entry(<<"s1.k3">>, "in1", "k2", LinkD("in1", <<GoodSig("k2")>>, {}, Variant(v)))>>
 
+\* sub-layout evidence whose own verification fails (badly signed inner link / inner rule failure):
+\* the whole verification fails, and must leave nothing behind for later verifications
+SubEvBad(how) ==
+  <<Entry(<< >>, "s1", "k3", LayoutD(<<GoodSig("k3")>>, 1000, <<"k2">>,
+            <<StepD("in1", <<"k2">>, 1, << >>,
+                    IF how = "rule" THEN <<Simple("DISALLOW", <<"*">>)>> ELSE <<Simple("ALLOW", <<"*">>)>>)>>, << >>)),
+    Entry(<<"s1.k3">>, "in1", "k2",
+          LinkD("in1", <<IF how = "sig" THEN BadSig("k2") ELSE GoodSig("k2")>>, {}, Variant("A")))>>
+
 MCInit ==
   /\ \E thr \in {0, 1, 2}, rs \in RuleSets, two \in BOOLEAN,
-        v1 \in {"A", "B", "C"}, v2 \in {"A", "B", "C"}, v3 \in {"none", "A", "B", "C", "subA", "subB"} :
+        v1 \in {"A", "B", "C"}, v2 \in {"A", "B", "C"}, v3 \in {"none", "A", "B", "C", "subA", "subB", "subBadSig", "subBadRule"} :
        /\ (rs = "match" => two)
        /\ scn = Build(Layout(thr, rs, two), Own("o1"),
                       <<Entry(<< >>, "s1", "k1", LinkD("s1", <<GoodSig("k1")>>, {}, Variant(v1))),
@@ -45,6 +54,8 @@ MCInit ==
                       \o (CASE v3 = "none" -> << >>
                             [] v3 = "subA" -> SubEv("A")
                             [] v3 = "subB" -> SubEv("B")
+                            [] v3 = "subBadSig" -> SubEvBad("sig")
+                            [] v3 = "subBadRule" -> SubEvBad("rule")
                             [] OTHER -> <<Entry(<< >>, "s1", "k3", LinkD("s1", <<GoodSig("k3")>>, {}, Variant(v3)))>>)
                       \o (IF two THEN S2 ELSE << >>), {})
   /\ VInitRest
